@@ -1,5 +1,110 @@
-import GojaModel.C02.Model
-import GojaModel.C02.Rewrites
+/-
+  C02 — property theorems about the MiniJS reference interpreter (`eval`, `run` in Model.lean).
+
+  * interpreter sanity: more fuel never changes a finished outcome (`eval_fuel_mono`, `run_fuel_mono`),
+    hence the outcome of a program is unique (`run_outcome_unique`); determinism for a fixed fuel is by
+    construction (`eval` is a function).
+  * rewrite soundness, for ALL programs of the modelled syntax, ALL fuels, environments and states: the
+    rewritten program evaluates in lock-step to the SAME result (same completion, same heap/store, same
+    log) with the SAME fuel.  Each rewrite is a syntactic function that is applied at every position
+    where its decidable side condition holds (the side condition is part of the function):
+      dead_code_after_abrupt   statements after return/throw/break/continue that declare nothing are dropped
+      if_false_dead_branch     `if(false) S` (S without `var`; S may contain eval/with = `outside`) in front
+                               of an expression statement / throw / return e is dropped
+      noop_closure_capture     `(()=>x);` (any closure-creating expression statement) in front of such a
+                               statement is dropped
+    `list_rewrite_sound` is the generic theorem they are instances of.
+  NOT proved (exercised by the correspondence only): block_wrap, iife_wrap, const_inline,
+  expr_stmt_vs_value_position, toString re-evaluation.
+-/
+import GojaModel.C02.Instances
+
 namespace GojaModel.C02
-theorem eval_zero (P : Prog) (t : Task) (env : Env) (st : St) : eval P 0 t env st = .timeout := rfl
+
+/-! ### interpreter sanity -/
+
+/-- More fuel never changes a finished outcome (any task, environment, state). -/
+theorem eval_fuel_mono (P : Prog) {n m : Nat} (h : n ≤ m) (t : Task) (env : Env) (st : St) (r : Res)
+    (hr : eval P n t env st = r) (hfin : r ≠ .timeout) : eval P m t env st = r := by
+  rcases eval_le_of_le P h t env st with h1 | h1
+  · rw [hr] at h1; exact absurd h1 hfin
+  · rw [← h1, hr]
+
+/-- Same for whole scripts. -/
+theorem run_fuel_mono (P : Prog) {n m : Nat} (h : n ≤ m) (r : Res)
+    (hr : run P n = r) (hfin : r ≠ .timeout) : run P m = r := by
+  have hS : ∀ s l env st, Res.le (evalS P n s l env st) (evalS P m s l env st) :=
+    fun s l env st => eval_le_of_le P h (.stmt s l) env st
+  have := evalBlock_mono hS P.body
+    (allocNames (varNamesL P.body).eraseDups ⟨some .undef, true⟩ [] emptySt).1
+    (allocNames (varNamesL P.body).eraseDups ⟨some .undef, true⟩ [] emptySt).2
+  rcases this with h1 | h1
+  · have : run P n = .timeout := h1
+    rw [hr] at this; exact absurd this hfin
+  · have : run P n = run P m := h1
+    rw [← this, hr]
+
+/-- The finished outcome of a script does not depend on the fuel. -/
+theorem run_outcome_unique (P : Prog) (n m : Nat) (r1 r2 : Res)
+    (h1 : run P n = r1) (h2 : run P m = r2) (f1 : r1 ≠ .timeout) (f2 : r2 ≠ .timeout) : r1 = r2 := by
+  rcases Nat.le_total n m with h | h
+  · rw [← run_fuel_mono P h r1 h1 f1, h2]
+  · rw [← h1, run_fuel_mono P h r2 h2 f2]
+
+/-! ### rewrite soundness -/
+
+/-- Generic: a per-position list rewrite whose decisions satisfy `ActOK` preserves evaluation of every
+task in every environment and state, with the same fuel. -/
+theorem list_rewrite_sound {act : Stmt → List Stmt → Action} (ok : ActOK act) (P : Prog) (n : Nat)
+    (t : Task) (env : Env) (st : St) :
+    eval (P.mapBodies (gL act)) n (mapTask act t) env st = eval P n t env st :=
+  eval_g ok P n t env st
+
+theorem dead_code_after_abrupt_sound (P : Prog) (n : Nat) : run (deadCodeAfterAbrupt P) n = run P n :=
+  run_g dcAct_ok P n
+
+theorem dead_code_after_abrupt_sound_eval (P : Prog) (n : Nat) (t : Task) (env : Env) (st : St) :
+    eval (deadCodeAfterAbrupt P) n (mapTask dcAct t) env st = eval P n t env st :=
+  eval_g dcAct_ok P n t env st
+
+theorem if_false_dead_branch_sound (P : Prog) (n : Nat) : run (ifFalseDeadBranch P) n = run P n :=
+  run_g (elAct_ok isDeadIf_ok) P n
+
+theorem if_false_dead_branch_sound_eval (P : Prog) (n : Nat) (t : Task) (env : Env) (st : St) :
+    eval (ifFalseDeadBranch P) n (mapTask (elAct isDeadIf) t) env st = eval P n t env st :=
+  eval_g (elAct_ok isDeadIf_ok) P n t env st
+
+theorem noop_closure_capture_sound (P : Prog) (n : Nat) : run (noopClosureCapture P) n = run P n :=
+  run_g (elAct_ok isNoopClosure_ok) P n
+
+theorem noop_closure_capture_sound_eval (P : Prog) (n : Nat) (t : Task) (env : Env) (st : St) :
+    eval (noopClosureCapture P) n (mapTask (elAct isNoopClosure) t) env st = eval P n t env st :=
+  eval_g (elAct_ok isNoopClosure_ok) P n t env st
+
+/-- Observable outcomes (completion kind + rendered value + log) agree as a corollary. -/
+theorem rewrites_preserve_outcome (P : Prog) (n : Nat) :
+    (run (deadCodeAfterAbrupt P) n).show = (run P n).show ∧
+    (run (ifFalseDeadBranch P) n).show = (run P n).show ∧
+    (run (noopClosureCapture P) n).show = (run P n).show := by
+  rw [dead_code_after_abrupt_sound, if_false_dead_branch_sound, noop_closure_capture_sound]
+  exact ⟨rfl, rfl, rfl⟩
+
+/-! ### non-vacuity (tests on literals: the rewrites do change concrete programs) -/
+
+/-- `log(1); if (false) { eval("") } throw 2; log(3)` inside a function that is called. -/
+def demo : Prog :=
+  { strict := true,
+    funs := [⟨.normal, [], none,
+      [.expr (.log (.lit (.num 1))),
+       .ite (.lit (.bool false)) (.block [.outside "eval"]) .empty,
+       .expr (.func 0),
+       .throw (.lit (.num 2)),
+       .expr (.log (.lit (.num 3)))]⟩],
+    body := [.expr (.call (.func 0) [])] }
+
+example : progSize (deadCodeAfterAbrupt demo) = 8 ∧ progSize demo = 9 := by decide
+example : progSize (ifFalseDeadBranch demo) = 5 := by decide
+example : progSize (noopClosureCapture demo) = 8 := by decide
+example : (run demo 10).show = "T 2 | 1" := by decide
+
 end GojaModel.C02
